@@ -85,7 +85,7 @@ func stepAlphabet() []tStmt {
 		{Op: "has", Has: &h1}, {Op: "has", Has: &h2}, {Op: "hasLabel", Strs: []string{"P"}}, {Op: "hasId", Strs: []string{"a", "b", "e0"}},
 		{Op: "hasKey", Strs: []string{"w"}}, {Op: "as", Str: "m1"}, {Op: "select", Strs: []string{"m1"}},
 		{Op: "fields", Strs: []string{"name"}}, {Op: "unwind", Str: "tags"}, {Op: "count"},
-		{Op: "distinct", Strs: []string{"name"}}, {Op: "distinct", Strs: []string{"w"}}, {Op: "limit", N: 2}, {Op: "skip", N: 1}, {Op: "range", N: 1, M: 3},
+		{Op: "distinct", Strs: []string{"name"}}, {Op: "distinct", Strs: []string{"w"}}, {Op: "limit", N: 2}, {Op: "skip", N: 1}, {Op: "range", N: 1, M: 3}, {Op: "range", N: 1, M: -1}, {Op: "range", N: 0, M: 0},
 		{Op: "render", Tpl: map[string]interface{}{"i": "_gid", "n": "name"}}, {Op: "path"},
 	}
 }
@@ -291,7 +291,7 @@ func runC01(ctx *Ctx) error {
 	ctx.EvalMod = "Eval_C01"
 	ctx.CaseTy = "c01_case"
 	ctx.Shard = 150
-	ctx.Rule = "programs = start (V / V(ids incl. missing and repeated) / E / E(ids)) followed by every sequence of <= 2 (thorough: 3) steps over a 25-step alphabet on a fixed graph with a self loop, parallel edges, dangling endpoints, an isolated vertex and nested data (exhaustive), plus random graphs x random programs up to 8-11 steps (has-expressions over marks, fields, unwind, render, path, select, distinct, windows last or followed by count only; ~4% deliberately ill-typed); executed literally (core.StatementProcessor for every statement, all loads forced) on kvgraph/Badger; non-trivial = well typed, >= 1 row, >= 2 steps after the start; distinct by (graph, program)"
+	ctx.Rule = "programs = start (V / V(ids incl. missing and repeated) / E / E(ids)) followed by every sequence of <= 2 (thorough: 3) steps over a 27-step alphabet on a fixed graph with a self loop, parallel edges, dangling endpoints, an isolated vertex and nested data (exhaustive), plus random graphs x random programs up to 8-11 steps (has-expressions over marks, fields, unwind, render, path, select, distinct, windows last or followed by count only; ~4% deliberately ill-typed); executed literally (core.StatementProcessor for every statement, all loads forced) on kvgraph/Badger; non-trivial = well typed, >= 1 row, >= 2 steps after the start; distinct by (graph, program)"
 	var inputs []c01Input
 	if ctx.Replay != nil {
 		var in c01Input
